@@ -98,7 +98,7 @@ def cmd_run(mid, props):
     try:
         rc, out = sh(["git", "-C", wt, "apply", os.path.join(d, "patch.diff")])
         assert rc == 0, out
-        env = dict(os.environ, DSW_REPO=wt, PYTHONHASHSEED="0")
+        env = dict(os.environ, DSW_REPO=wt, PYTHONHASHSEED="0", VERIF_SEARCH_SECONDS=os.environ.get("VERIF_SEARCH_SECONDS", "30"))
         procs = {}
         for p in props:
             procs[p] = subprocess.Popen([os.path.join(VERIF, "check"), p, "--tier", "quick"], cwd=VERIF, env=env,
@@ -110,11 +110,13 @@ def cmd_run(mid, props):
             out = pr.communicate()[0]
             vio = [l for l in out.split("\n") if l.startswith("VIOLATION")]
             why = [l.strip() for l in out.split("\n") if l.strip().startswith(("failing input:", "disagreement:"))][:1]
-            results[p] = {"exit": pr.returncode, "violation": vio[0] if vio else None, "first_evidence": (why[0][:300] if why else None)}
+            results[p] = {"exit": pr.returncode, "violation": vio[0] if vio else None, "first_evidence": (why[0][:300] if why else None),
+                          "with_failing_input": bool(vio) and not vio[0].endswith("no-failing-input-found")}
     finally:
         drop(wt)
     meta.setdefault("detection", {}).update(results)
     meta["detected_by"] = sorted(p for p, r in meta["detection"].items() if r["exit"] == 1)
+    meta["detected_with_failing_input_by"] = sorted(p for p, r in meta["detection"].items() if r["exit"] == 1 and r.get("with_failing_input"))
     meta["detected_by_own_property_check"] = meta["property"] in meta["detected_by"]
     save(mid, meta)
     print(mid, "detected by", meta["detected_by"], "| own:", meta["detected_by_own_property_check"])
@@ -128,9 +130,11 @@ def cmd_table():
             continue
         m = json.load(open(mp))
         first = (m.get("needs_to_manifest", "").split("\n") or [""])[0][:110]
-        rows.append("| %s | %s | %s | %s | %s |" % (mid, m["property"], "yes" if m.get("validation", {}).get("valid") else "NO",
-                                                 ", ".join(m.get("detected_by", [])) or "-", first.replace("|", "/")))
-    print("| seeded change | breaks | valid | caught by (quick tier) | what it is |\n|---|---|---|---|---|")
+        wf = m.get("detected_with_failing_input_by", m.get("detected_by", []))
+        only_tie = [p for p in m.get("detected_by", []) if p not in wf]
+        rows.append("| %s | %s | %s | %s | %s | %s |" % (mid, m["property"], "yes" if m.get("validation", {}).get("valid") else "NO",
+                                                      ", ".join(wf) or "-", ", ".join(only_tie) or "-", first.replace("|", "/")))
+    print("| seeded change | breaks | valid | caught with a failing input by | reported as no-failing-input-found by | what it is |\n|---|---|---|---|---|---|")
     print("\n".join(rows))
 
 
